@@ -118,7 +118,26 @@ def replay(args):
     print(f"VIOLATION property=C15 replay={args[0]}")
     return 1
 
+def confirm(args):
+    """Is a stall seen under the simulator also a stall of the UN-HOOKED code? exit 0: the code
+    completes correctly under Miri (stall not confirmed), 1: it fails there too, 3: it does not
+    finish within the budget (stall confirmed)."""
+    cpus, days, thr = int(args[0]), int(args[1]), int(args[2])
+    prepare()
+    import resource
+    resource.setrlimit(resource.RLIMIT_AS, (24 << 30, 24 << 30))   # inherited by Miri: a runaway allocation cannot take the machine
+    rc, out, wall = miri(cpus, days, thr, "0..2", "0.05", int(args[3]) if len(args) > 3 else 240)
+    if rc is None:
+        print(f"miri confirm: no result within the budget (cpus={cpus} days={days} thr={thr})")
+        return 3
+    if rc == 0:
+        print(f"miri confirm: un-hooked code completes correctly in {wall:.0f} s")
+        return 0
+    print(f"miri confirm: un-hooked code fails too: {classify(out)}")
+    return 1
+
 if __name__ == "__main__":
     if len(sys.argv) < 2:
         sys.exit(2)
-    sys.exit(run(sys.argv[2:]) if sys.argv[1] == "run" else replay(sys.argv[2:]))
+    cmd = sys.argv[1]
+    sys.exit(run(sys.argv[2:]) if cmd == "run" else confirm(sys.argv[2:]) if cmd == "confirm" else replay(sys.argv[2:]))
